@@ -1237,6 +1237,10 @@ class CompositeEnvelope:
         # Make sure the order of the states in tensoring is correct
         self.reorder(*states)
 
+        # Reordering combines the states which are not yet in the same product
+        # state, in that case the product state is replaced
+        ps = [p for p in self.states if all(so in p.state_objs for so in states)][0]
+
         outcome = ps.measure_POVM(operators, *states, destructive=destructive)
         return outcome
 
@@ -1317,6 +1321,10 @@ class CompositeEnvelope:
 
         # Make sure the order of the states in tensoring is correct
         self.reorder(*states)
+
+        # Reordering combines the states which are not yet in the same product
+        # state, in that case the product state is replaced
+        ps = [p for p in self.states if all(so in p.state_objs for so in states)][0]
 
         ps.apply_kraus(operators, *states)
 
